@@ -9,6 +9,9 @@ structure DS where
   st    : St
   /-- `InitQCTree` returned nil: every op of the case answers `no-tree` -/
   dead  : Bool := false
+  /-- the op lines of the case executed so far, latest first, from its `reset` line on (`dump`, `conc` and refused
+  lines are not part of it): what the threads of a `conc` op replay -/
+  hist  : List String := ["reset"]
 
 def world (table : List (Nat × Info)) : World :=
   fun x => match table.lookup x with
@@ -45,6 +48,12 @@ def register (d : DS) (id : Nat) (i : Info) : Option DS :=
   | some j => if i == j then some d else none
   | none => some { d with table := (id, i) :: d.table }
 
+/-- views are Go `int64`s: a line with a view outside the range is not an op (the harness cannot even build the message) -/
+def view? (s : String) : Option Int :=
+  match s.toInt? with
+  | some v => if -9223372036854775808 ≤ v ∧ v ≤ 9223372036854775807 then some v else none
+  | none => none
+
 def parseParent (p : String) : Option (Option Nat) :=
   if p == "-" then some none else p.toNat?.map some
 
@@ -56,14 +65,14 @@ def stepLive (d : DS) (ws : List String) : DS × String :=
   match ws with
   | ["dump"] => (d, "ok " ++ dump d.st)
   | ["ins", id, view, par, _pview] =>
-    match id.toNat?, view.toInt?, parseParent par with
+    match id.toNat?, view? view, parseParent par with
     | some id, some view, some par =>
       match register d id { view := view, parent := par } with
       | some d => runOp d (.ins id)
       | none => (d, "bad-op")
     | _, _, _ => (d, "bad-op")
   | ["prop", id, view, par, pview, c] =>
-    match id.toNat?, view.toInt?, par.toNat?, pview.toInt? with
+    match id.toNat?, view? view, par.toNat?, view? pview with
     | some id, some view, some par, some pview =>
       match register d id { view := view, parent := some par } with
       | some d => runOp d (.prop id pview (c == "1"))
@@ -74,7 +83,7 @@ def stepLive (d : DS) (ws : List String) : DS × String :=
   | ["enforce", id] => match id.toNat? with | some id => runOp d (.enforce id) | none => (d, "bad-op")
   | ["commit", id] => match id.toNat? with | some id => runOp d (.commit id) | none => (d, "bad-op")
   | ["pm", v] =>
-    match v.toInt? with
+    match view? v with
     | some v => let (s, _) := stepOp (world d.table) d.st (.pm v); ({ d with st := s }, "view " ++ toString s.pm)
     | none => (d, "bad-op")
   | _ => (d, "bad-op")
@@ -85,19 +94,44 @@ def ledgerTable (tip : Nat) : List (Nat × Info) :=
 
 def treeOps : List String := ["dump", "ins", "prop", "high", "vote", "enforce", "commit", "pm"]
 
-def step (d : DS) (line : String) : DS × String :=
+def stepBase (d : DS) (line : String) : DS × String :=
   match words line with
   | ["reset"] => (initDS, "ok " ++ dump initDS.st)
   | ["reset", start, tip] =>
     match start.toNat?, tip.toNat? with
     | some start, some tip =>
       match initQCTree (fun h => h) start tip with
-      | some s => ({ table := ledgerTable tip, st := s }, "ok " ++ dump s)
-      | none => ({ initDS with dead := true }, "nil")
+      | some s => ({ table := ledgerTable tip, st := s, hist := [line] }, "ok " ++ dump s)
+      | none => ({ initDS with dead := true, hist := [line] }, "nil")
     | _, _ => (d, "bad-op")
   | op :: rest =>
-    if d.dead then (d, if treeOps.contains op then "no-tree" else "bad-op") else stepLive d (op :: rest)
+    if d.dead then (d, if treeOps.contains op then "no-tree" else "bad-op") else
+    let (d', a) := stepLive d (op :: rest)
+    if a == "bad-op" || op == "dump" then (d', a) else ({ d' with hist := line :: d'.hist }, a)
   | [] => (d, "bad-op")
+
+/-- the tree a thread of a `conc` op ends with: the sequential run of its op lines on a tree of its own -/
+def replay (lines : List String) : String :=
+  let d := lines.foldl (fun d l => (stepBase d l).1) initDS
+  if d.dead then "no-tree" else dump d.st
+
+/-- `conc k seed [free]`: `k` independent trees, tree `i` executes the first `max 1 (n - i)` of the `n` op lines of the
+case.  Independent trees do not influence each other whatever the schedule (`XV.C15.interleaved_eq_sequential`), so the
+answer does not depend on `seed`: the final dump of every thread's sequential run. -/
+def step (d : DS) (line : String) : DS × String :=
+  match words line with
+  | "conc" :: k :: seed :: rest =>
+    if rest != [] && rest != ["free"] then (d, "bad-op") else
+    match k.toNat?, seed.toNat? with
+    | some k, some _ =>
+      if k < 2 || k > 6 then (d, "bad-op")
+      else if d.dead then (d, "no-tree")
+      else
+        let h := d.hist.reverse
+        let finals := (List.range k).map (fun i => replay (h.take (max 1 (h.length - i))))
+        (d, "ok " ++ joinWith " | " finals)
+    | _, _ => (d, "bad-op")
+  | _ => stepBase d line
 
 def run : IO Unit := loop step initDS
 
